@@ -30,7 +30,7 @@ mview == <<view, pool, clean, nsub>>
 \* serialized sizes of the templates (bytes), measured on the real transactions;
 \* the driver refuses to run if they differ
 TxSize(t) == CASE t = "T1" -> 293 [] t = "T2" -> 227 [] t = "T3" -> 227 [] t = "T4" -> 265
-               [] t = "T5" -> 227 [] t = "T6" -> 293 [] t = "T7" -> 367
+               [] t = "T5" -> 227 [] t = "T6" -> 293 [] t = "T7" -> 367 [] t = "T9" -> 227
                [] t \in {"R1", "R2", "R3", "R4"} -> 459 [] OTHER -> 0
 
 RECURSIVE SumSize(_)
